@@ -562,6 +562,17 @@ pub fn check(prop: &Prop, tier: Tier) -> i32 {
             unknown.entry(v.class.clone()).or_insert_with(|| (*run, v.clone(), sc.clone()));
         }
     }
+    {
+        let mut per_class: BTreeMap<String, u64> = BTreeMap::new();
+        for (_, v, _) in &c.violations {
+            if known_match(&known, v).is_none() {
+                *per_class.entry(v.class.clone()).or_insert(0) += 1;
+            }
+        }
+        for (k, n) in &per_class {
+            println!("  violation class {k}: {n}");
+        }
+    }
     for (what, n) in &known_hits {
         println!("KNOWN-FINDING: property={} {what} [{n} occurrence(s) this run]", prop.id);
     }
@@ -659,6 +670,33 @@ pub fn check(prop: &Prop, tier: Tier) -> i32 {
         }
         1
     }
+}
+
+/// Determinism audit: every run executed twice, in different processes, different order and
+/// different chunking; event-log fingerprints must agree.
+pub fn audit(prop: &Prop, tier: Tier) -> i32 {
+    let seed: u64 = std::env::var("VERIF_SEED").ok().and_then(|s| s.trim().parse().ok()).unwrap_or(20_260_922);
+    let jobs: usize = std::env::var("VERIF_JOBS").ok().and_then(|s| s.parse().ok()).unwrap_or(16).max(1);
+    let runs: u64 = std::env::var("VERIF_RUNS").ok().and_then(|s| s.parse().ok()).unwrap_or(600);
+    let a = run_chunks(prop, tier, seed, chunked(runs, jobs), jobs);
+    let mut rev: Vec<u64> = (0..runs).rev().collect();
+    let mut lists = vec![];
+    let per = (runs as usize / (jobs + 1)).max(1);
+    while !rev.is_empty() {
+        let n = per.min(rev.len());
+        lists.push(rev.drain(..n).collect());
+    }
+    let b = run_chunks(prop, tier, seed, lists, jobs);
+    let bad: Vec<u64> =
+        a.fingerprints.iter().filter(|(r, fp)| b.fingerprints.get(r) != Some(fp)).map(|(r, _)| *r).collect();
+    println!(
+        "audit {} jobs={jobs} runs={runs}: {} re-executed, {} mismatching {:?}",
+        prop.id,
+        b.fingerprints.len(),
+        bad.len(),
+        &bad[..bad.len().min(10)]
+    );
+    if bad.is_empty() { 0 } else { 2 }
 }
 
 pub fn replay(prop: &Prop, path: &str) -> i32 {
